@@ -41,16 +41,7 @@ def check(run: Run) -> None:
     # ---- Q1 / Q3: solve_for_vector evaluated as a whole (whatever the shape of its code)
     _solve_for_vector(run, mod, f)
     # ---- Q2
-    a = Fn(w, MOD, "apply", inline=True)
-    for r in a.cfg.returns():
-        run.ob("Q2", "apply")
-        v = r.ast.value
-        ok = isinstance(v, ast.Call) and dotted(v.func) == "Eq" and len(v.args) == 2 and all(isinstance(x, ast.Call) and dotted(x.func) == "f" and len(x.args) == 1 for x in v.args)
-        if ok:
-            s0, s1 = a.slice(r, v.args[0].args[0]), a.slice(r, v.args[1].args[0])
-            ok = ("eqn.lhs" in s0.attrs or "lhs" in s0.attr_names) and ("eqn.rhs" in s1.attrs or "rhs" in s1.attr_names) and "rhs" not in s0.attr_names and "lhs" not in s1.attr_names
-        if not ok:
-            run.violate("Q2", f"{MOD}:apply", a.mod, r.ast, "apply does not return Eq(f(lhs), f(rhs))")
+    _q2(run, mod)
     # ---- Q4: solve_for_scalar evaluated abstractly against a stand-in for sympy.solve
     _q4(run, mod)
     # ---- Q5: is_vector_expr evaluated abstractly on a table of small expressions
@@ -382,6 +373,51 @@ def _q5(run: Run) -> None:
                         ("a linear combination of vectors with scalar coefficients must be accepted" if want else
                          "it is not a linear combination of vectors with scalar coefficients (a product or power of vectors, a vector in a denominator, or no vector at all): "
                          "solve_for_vector would rearrange it as if the extra vector factors were scalars"))
+
+
+def _q2(run: Run, mod) -> None:
+    """apply(eqn, f) evaluated on an equation and on a bare expression with an opaque function f"""
+
+    class R(PyReader):
+
+        def hook_attr(self, base, attr, n):
+            if isinstance(base, tuple) and len(base) == 3 and base[0] == "eq" and attr in ("lhs", "rhs"):
+                return base[1] if attr == "lhs" else base[2]
+            return NotImplemented
+
+        def is_instance(self, v, names, n):
+            if "Eq" in names or "Equality" in names:
+                return isinstance(v, tuple) and len(v) == 3 and v[0] == "eq"
+            self.fail(n, "isinstance outside the modelled classes")
+
+        def hook_call(self, n, env, fns):
+            name = (dotted(n.func) or "").split(".")[-1]
+            if name == "isinstance" and len(n.args) == 2:
+                return self.is_instance(self.ev(n.args[0], env, fns), self.class_names(n.args[1]), n)
+            if name == "Eq" and len(n.args) == 2:
+                return ("eq", self.ev(n.args[0], env, fns), self.ev(n.args[1], env, fns))
+            if isinstance(n.func, ast.Name) and n.func.id in env and env[n.func.id] == "F" and len(n.args) == 1:
+                return ("F", self.ev(n.args[0], env, fns))
+            return NotImplemented
+
+    a, b, e = var("A"), var("B"), var("E")
+
+    def zero(x) -> bool:
+        return x == 0 or (isinstance(x, T) and x.op == "num" and x.val == 0)
+
+    for label, arg, want_l, want_r in (("equation", ("eq", a, b), a, b), ("expression", e, e, None)):
+        run.ob("Q2", f"apply:{label}")
+        rd = R(mod.tree, "solvers/__init__.py")
+        try:
+            got = rd.call("apply", [arg, "F"])
+        except Raised as r:
+            got = r
+        ok = isinstance(got, tuple) and len(got) == 3 and got[0] == "eq" and all(isinstance(x, tuple) and len(x) == 2 and x[0] == "F" for x in got[1:]) \
+            and got[1][1] == want_l and (got[2][1] == want_r if want_r is not None else zero(got[2][1]))
+        if not ok:
+            run.violate("Q2", f"{MOD}:apply:{label}", mod, mod.tree,
+                        f"apply({'Eq(A, B)' if label == 'equation' else 'E'}, f) does not return Eq(f({'A' if label == 'equation' else 'E'}), f({'B' if label == 'equation' else '0'})): got "
+                        f"{('raises ' + got.exc) if isinstance(got, Raised) else repr(got)[:120]}")
 
 
 def _strip_one(t: T) -> T:
